@@ -515,8 +515,16 @@ rt_gen_wellformed(vh_rng *r, struct rt_desc *d, int allow_fail)
     /* one table in six has one long area densely packed with registers (more than 16, 17, 32 of them in one
      * area: whatever look-up strategy the library uses for long runs gets exercised) */
     const int large = vh_chance(r, 1, 6) ? (int)vh_below(r, (uint64_t)d->nareas) : -1;
+    /* one table in four has an area that is left without registers on purpose (it happens by chance too, but
+     * rarely behind a populated area that it touches); two times in three such an area directly follows its
+     * predecessor and both are plainly writable, so that block writes can run from registers into it */
+    const int bare = vh_chance(r, 1, 4) ? (int)vh_below(r, (uint64_t)d->nareas) : -1;
+    const int bare_joined = bare > 0 && vh_chance(r, 2, 3);
+    uint32_t lastgap = 0;
     for (int i = 0; i < d->nareas; i++) {
         struct rt_area *a = &d->area[i];
+        if (bare_joined && i == bare)
+            cursor -= lastgap;
         a->base = cursor;
         a->size = i == large ? 18 + (uint32_t)vh_below(r, 31) : 1 + (uint32_t)vh_below(r, 8);
         unsigned f = (unsigned)vh_below(r, 20);
@@ -525,11 +533,13 @@ rt_gen_wellformed(vh_rng *r, struct rt_desc *d, int allow_fail)
         a->skipdef = (f == 5 || f == 6);
         a->custom = vh_chance(r, 3, 10);
         a->has_write = a->custom ? !vh_chance(r, 1, 5) : 1;
-        cursor += a->size + gaps[vh_below(r, 4)];
+        if (bare_joined && (i == bare || i == bare - 1)) {
+            a->readable = a->writeable = 1;
+            a->has_write = 1;
+        }
+        lastgap = gaps[vh_below(r, 4)];
+        cursor += a->size + lastgap;
     }
-    /* one table in four has an area that is left without registers on purpose (it happens by chance too, but
-     * rarely behind a populated area that it touches) */
-    const int bare = vh_chance(r, 1, 4) ? (int)vh_below(r, (uint64_t)d->nareas) : -1;
     for (int i = 0; i < d->nareas && d->nregs < RT_MAXREGS - 2; i++) {
         const struct rt_area *a = &d->area[i];
         uint32_t p = a->base;
@@ -551,6 +561,77 @@ rt_gen_wellformed(vh_rng *r, struct rt_desc *d, int allow_fail)
             p += words;
         }
     }
+}
+
+/* Curated layouts: structural corners that the seeded family reaches only now and then - a register-less area
+ * directly behind, in front of and between populated ones, a long densely packed area next to a register-less
+ * one, everything adjacent. Registers are filled from the generator (types by size, constraints, defaults).
+ * Returns 0 when k is past the list. */
+#define RT_NCURATED 12
+static int
+rt_gen_curated(vh_rng *r, unsigned k, struct rt_desc *d, int allow_fail)
+{
+    /* per layout: area sizes (0 ends), which areas stay bare (bit mask), custom mask, big-endian */
+    static const struct {
+        uint32_t base;
+        uint32_t size[3];
+        unsigned bare, custom, be;
+    } L[RT_NCURATED / 2] = {
+        { 0, { 4, 4, 0 }, 2u, 0u, 0 },         /* populated, bare */
+        { 0x100, { 3, 5, 0 }, 1u, 0u, 1 },     /* bare, populated */
+        { 5, { 4, 2, 4 }, 2u, 0u, 0 },         /* populated, bare, populated */
+        { 0xfff8, { 6, 3, 0 }, 2u, 3u, 1 },    /* callback-backed, across the 16-bit boundary */
+        { 0, { 40, 4, 0 }, 2u, 0u, 0 },        /* long dense area, bare */
+        { 0xffffff00u, { 5, 30, 3 }, 1u, 2u, 0 } /* bare, long dense callback area, populated: top of the address space */
+    };
+    if (k >= RT_NCURATED)
+        return 0;
+    const unsigned li = k / 2;
+    memset(d, 0, sizeof *d);
+    d->bigendian = (int)(L[li].be ^ (k & 1));
+    uint32_t cursor = L[li].base;
+    for (int i = 0; i < 3 && L[li].size[i]; i++) {
+        struct rt_area *a = &d->area[d->nareas++];
+        a->base = cursor;
+        a->size = L[li].size[i];
+        a->readable = a->writeable = 1;
+        a->custom = (int)((L[li].custom >> i) & 1u);
+        a->has_write = 1;
+        cursor += a->size;
+    }
+    for (int i = 0; i < d->nareas && d->nregs < RT_MAXREGS - 2; i++) {
+        if ((L[li].bare >> i) & 1u)
+            continue;
+        const struct rt_area *a = &d->area[i];
+        uint32_t p = a->base;
+        while (p < a->base + a->size && d->nregs < RT_MAXREGS - 2) {
+            /* sizes in a fixed rhythm (1,1,2,1,4 words, one word skipped now and then), so that every populated
+             * area holds several registers; two registers in three are unconstrained, so that block writes
+             * running over them can succeed */
+            static const unsigned rhythm[] = { 1, 1, 2, 1, 4, 0, 2, 1 };
+            uint32_t room = a->base + a->size - p;
+            unsigned words = rhythm[(d->nregs + (p - a->base)) % 8];
+            if (words > room)
+                words = room >= 2 ? 2 : 1;
+            if (words == 0) {
+                p++;
+                continue;
+            }
+            struct rt_reg *g = &d->reg[d->nregs++];
+            memset(g, 0, sizeof *g);
+            g->type = rt_type_for_size(r, words);
+            g->addr = p;
+            rt_gen_constraint(r, g, allow_fail && (k & 1));
+            if (d->nregs % 3 != 0) {
+                g->ck = REGV_TYPE_TRIVIAL;
+                g->def = rt_pick_value(r, g->type);
+                if (!rt_bits_valid(g->type, rt_bits(g->type, g->def)))
+                    g->def = rt_from_bits(g->type, 0);
+            }
+            p += words;
+        }
+    }
+    return 1;
 }
 
 static const char *
